@@ -82,8 +82,8 @@ impl Write for Sink {
 // ------------------------------------------------------------------ scripted source
 
 enum SrcMode {
-    /// 0 up to 48 bytes (a small buffer), 1 one byte, 2 Interrupted, 3 everything available
-    Chooser(Ch),
+    /// 0 up to `base` bytes (a small buffer), 1 one byte, 2 Interrupted, 3 everything available
+    Chooser(Ch, usize),
     Fixed(usize),
 }
 
@@ -110,8 +110,8 @@ impl BufRead for Source<'_> {
             let rest = self.data.len() - self.pos;
             self.window = match &self.mode {
                 SrcMode::Fixed(k) => rest.min(*k),
-                SrcMode::Chooser(ch) => match pick(ch, 4, 4) {
-                    0 => rest.min(48),
+                SrcMode::Chooser(ch, base) => match pick(ch, 4, 4) {
+                    0 => rest.min(*base),
                     1 => 1,
                     2 => return Err(std::io::ErrorKind::Interrupted.into()),
                     _ => rest,
@@ -353,7 +353,7 @@ pub fn run(ctx: &Ctx) -> i32 {
             rbound,
             vlib::par::threads(),
             Acc::new,
-            |ch| catch(|| rpm::Package::parse(&mut Source { data: &s.canon, pos: 0, window: 0, mode: SrcMode::Chooser(ch.clone()) }).map_err(|e| e.to_string())),
+            |ch| catch(|| rpm::Package::parse(&mut Source { data: &s.canon, pos: 0, window: 0, mode: SrcMode::Chooser(ch.clone(), 48) }).map_err(|e| e.to_string())),
             |trace, r, acc: &mut Acc| {
                 acc.evals += 1;
                 let devs: Vec<(usize, u32)> = trace.iter().enumerate().filter(|(_, p)| p.chosen != 0).map(|(i, p)| (i, p.chosen)).collect();
@@ -376,6 +376,44 @@ pub fn run(ctx: &Ctx) -> i32 {
             .extra("exploration", rex)
             .extra("deviation_bound_completed", json!(rbound)),
     );
+    // ---- reading with small default buffers: a refill — and so a possible Interrupted — at (nearly) every byte offset of the metadata
+    {
+        let fbound = if ctx.thorough() { 2 } else { 1 };
+        let mut f = Acc::new();
+        let mut fex = json!({});
+        for s in subs_.iter() {
+            // the metadata and a little payload: the refill points of interest lie in lead, headers and padding
+            let input = &s.canon[..s.canon.len().min(s.payload_off + 24)];
+            for base in [1usize, 3, 8] {
+                if base > 1 && s.canon.len() > 20_000 {
+                    continue;
+                }
+                let (st, accs) = explore(
+                    fbound,
+                    vlib::par::threads(),
+                    Acc::new,
+                    |ch| catch(|| rpm::Package::parse(&mut Source { data: input, pos: 0, window: 0, mode: SrcMode::Chooser(ch.clone(), base) }).map_err(|e| e.to_string())),
+                    |trace, r, acc: &mut Acc| {
+                        acc.evals += 1;
+                        let devs: Vec<(usize, u32)> = trace.iter().enumerate().filter(|(_, p)| p.chosen != 0).map(|(i, p)| (i, p.chosen)).collect();
+                        if !devs.is_empty() {
+                            acc.nontrivial += 1;
+                        }
+                        read_outcome("read-explore-fine", s, input, Some(input.len()), r, devs.len() as u64, &|| json!({"subject": s.name, "source_buffer_bytes": base, "input_bytes": input.len(), "deviating_source_answers(fill_buf index, 1=one byte 2=Interrupted 3=everything)": devs}), acc);
+                    },
+                );
+                fex[format!("{} / {}-byte buffer", s.name, base)] = json!({"executions": st.executions, "max_choice_points": st.max_points});
+                for x in accs {
+                    f.merge(x);
+                }
+            }
+        }
+        reports.push(
+            SubReport::new("read-explore-fine", "C", &format!("every subject's metadata (plus 24 payload bytes) from a source whose default answer is a 1-, 3- or 8-byte buffer, so that a refill happens at every byte offset / every third / every eighth: at every fill_buf the source may instead answer {{1 byte, Interrupted, everything available}}; all executions with ≤ {} deviation(s); the parse result must equal the reference parse", fbound), f)
+                .extra("exploration", fex)
+                .extra("deviation_bound_completed", json!(fbound)),
+        );
+    }
     // the operating system as source and sink: regular files, named pipes (no usable stat size), existing longer destinations
     {
         let mut acc = Acc::new();
